@@ -74,7 +74,7 @@ TRUSTED = ["g++/libstdc++, ASan/UBSan, OpenMPI", "translator tr_c13.py", "harnes
 def batches(tier, seed):
     res = []
     if tier == "quick":
-        plan = [(1, 100), (2, 1200), (3, 1500), (4, 1500)]
+        plan = [(1, 100), (2, 1200), (3, 2000), (4, 2500)]
         for (np, n) in plan:
             res.append(dict(args=["--seed", str(seed * 1000 + np), "--cases", str(n), "--tier", tier], np=np,
                             tag="np%d" % np, timeout=900))
